@@ -17,9 +17,12 @@
     Claimed as PARTIAL only because RDKit is third party:
     NOT proved  (validated by execution only, tools/props/c18.py): element / charge / bond order / hydrogen
                 count through RDKit's C++, bonding distances after RDKit's embedding, numpy's float64 arithmetic. *)
-From Coq Require Import List ZArith Bool QArith.
+From Coq Require Import String.
+From Coq Require Import List Ascii ZArith Bool QArith.
 From CGV Require Import Base.PyBase Geom.Num Gen.GeomGen Geom.IndexMap Geom.ForwardMap Geom.CoordDefs
      Geom.IndexMapProofs Geom.ForwardMapProofs Geom.CoordProofs.
+From CGV Require Import Base.PyVal Base.NxGraph Resolve.GraphOps Resolve.MapProofs Resolve.CopyProofs Resolve.PipelineFull
+     Resolve.FragidProofs Gen.HydroGen Hydro.Hydrogens Hydro.HydroDefs Hydro.RebuildProofs Geom.BeadTie.
 Import ListNotations.
 
 (** ---------- HEADLINE: the repaired code (the generated facts must have the repaired values for these to compile) *)
@@ -69,6 +72,60 @@ Theorem C18_bead_uses_own_atoms : forall {M} (o : numops M) mode (pos pos' : Z -
   (forall a, In a (map fst ws) -> pos a = pos' a) -> bead o mode pos ws = bead o mode pos' ws.
 Proof. exact @bead_uses_own_atoms. Qed.
 
+(** ---------- the beads of the graphs the RESOLVER returns (over the C02 / C09 models, imported unchanged).
+    forward_map_molecule's weights dict for coarse node k is [graph_weights wq g], g = the `graph` attribute of k;
+    [wq] is any numeric reading of a weight value. *)
+(** every atom entering bead k records k in its fragid (any coarse / fine graph pair) *)
+Theorem C18_bead_atoms_record_bead : forall {M} (wq : pyval -> M) meta mol fgs k g,
+  annotate_fragments meta mol = Ok fgs -> In (k, g) fgs ->
+  forall a, In a (map fst (graph_weights wq g)) -> records mol a k.
+Proof. exact @bead_atoms_record_bead. Qed.
+(** for the coarse graphs returned by a whole resolve step: the bead of k depends only on the positions of the
+    atoms that record k (hypotheses kept: well-formed fragment dictionary, C02's wf_dict / wf_attrs) *)
+Theorem C18_bead_of_resolved_own_atoms : forall {M} (o : numops M) (wq : pyval -> M) legacy aa fd prev car fo k g mode
+    (pos pos' : Z -> res (@vec3 M)),
+  wf_dict fd -> wf_attrs fd -> resolve_step_full legacy aa fd prev car = Ok fo -> In (k, g) (fo_fgs fo) ->
+  (forall a, records (fo_m6 fo) a k -> pos a = pos' a) ->
+  bead o mode pos (graph_weights wq g) = bead o mode pos' (graph_weights wq g).
+Proof. exact @bead_of_resolved_own_atoms. Qed.
+(** ... and is translation-equivariant (over Q; weights not summing to zero) *)
+Theorem C18_bead_of_resolved_translation : forall (wq : pyval -> Q) legacy aa fd prev car fo k g,
+  wf_dict fd -> wf_attrs fd -> resolve_step_full legacy aa fd prev car = Ok fo -> In (k, g) (fo_fgs fo) ->
+  ~ sum_weights numQ (graph_weights wq g) == 0 -> equivariant DivBySum (graph_weights wq g).
+Proof. exact bead_of_resolved_translation. Qed.
+(** the weight a fragment graph shows for an atom is the molecule's (attribute dicts without duplicate keys) *)
+Theorem C18_fragment_weight_is_molecule_weight : forall meta mol fgs k g, attrs_nodup mol ->
+  annotate_fragments meta mol = Ok fgs -> In (k, g) fgs ->
+  forall a, In a (node_keys g) -> node_get g a (S "weight") = node_get mol a (S "weight").
+Proof. exact fragment_weight_is_molecule_weight. Qed.
+(** C09: the hydrogens rebuild_h_atoms adds to a non-hydrogen atom carry that atom's weight *)
+Theorem C18_added_hydrogens_inherit_weight : forall ca g1 g',
+  NoDup (node_keys g1) -> closed_g g1 -> noself_g g1 -> (forall i n, gfind i g1 = Some n -> no_rs n) ->
+  rebuild_after_car false ca g1 = Ok g' -> str_in (S "weight") ca = true ->
+  forall k n, gfind k g1 = Some n -> is_H (na n) = false ->
+    exists idxs n', gfind k g' = Some n' /\ nadj n' = nadj n ++ map (fun j => (j, h_edge_attrs)) idxs /\
+      aget (S "weight") (na n') = aget (S "weight") (na n) /\
+      forall j, In j idxs -> exists h, gfind j g' = Some h /\ nadj h = [(k, h_edge_attrs)] /\ is_H (na h) = true /\
+                                       aget (S "weight") (na h) = Some (getd (S "weight") (na n') VNone).
+Proof. exact added_hydrogens_inherit_weight. Qed.
+Example C18_weight_is_copied : str_in (S "weight") rebuild_copy_attrs_default = true.
+Proof. exact weight_in_default_copy_attrs. Qed.
+(* non-vacuity: a two-bead molecule with a shared atom; bead 1 sees atoms 1,2 with the molecule's weights *)
+Example C18_nonvacuous_tie :
+  let mk f w := [(S "fragid", VList f); (S "weight", w)] in
+  let mol := [ {| nk := 0; na := mk [VInt 0] (VInt 1); nadj := [(1, [])] |};
+               {| nk := 1; na := mk [VInt 0; VInt 1] (VFlt (S "0.5")); nadj := [(0, []); (2, [])] |};
+               {| nk := 2; na := mk [VInt 1] (VInt 2); nadj := [(1, [])] |} ]%Z in
+  let meta := [ {| nk := 0; na := []; nadj := [] |}; {| nk := 1; na := []; nadj := [] |} ]%Z in
+  attrs_nodup mol /\
+  exists g0 g1, annotate_fragments meta mol = Ok [(0, g0); (1, g1)]%Z /\
+    map fst (graph_weights (fun v => v) g1) = [1; 2]%Z /\ node_get g1 1%Z (S "weight") = Some (VFlt (S "0.5")).
+Proof.
+  cbn zeta. split.
+  - intros n [<-|[<-|[<-|[]]]]; cbn; repeat (constructor; [cbn; intuition discriminate|]); constructor.
+  - eexists. eexists. split; [vm_compute; reflexivity|]. split; vm_compute; reflexivity.
+Qed.
+
 (** rdkit_to_networkx and conformers *)
 Theorem C18_conformer_status : r2n_status r2n_pos_arg_bound.
 Proof. exact (r2n_status_all r2n_pos_arg_bound). Qed.
@@ -89,7 +146,7 @@ Qed.
 (* non-unit weights whose sum equals their number: equivariant although the class "some weight <> 1" contains them *)
 Example C18_nonvacuous_weights :
   let ws := [(0%Z, 1 # 2); (1%Z, 3 # 2)] in ws <> [] /\ equivariant DivByLen ws /\
-  veq (beadT DivByLen (fun k => (inject_Z k, 1, 0)) ws) (3 # 4, 1, 0).
+  veq (beadT DivByLen (fun k => (inject_Z k, 1%Q, 0%Q)) ws) (3 # 4, 1%Q, 0%Q).
 Proof.
   cbn zeta. split; [discriminate|]. split.
   - apply forward_map_translation_len; [discriminate|]. vm_compute. reflexivity.
@@ -108,3 +165,8 @@ Print Assumptions C18_forward_map_translation_sum.
 Print Assumptions C18_forward_map_status.
 Print Assumptions C18_bead_uses_own_atoms.
 Print Assumptions C18_conformer_status.
+Print Assumptions C18_bead_atoms_record_bead.
+Print Assumptions C18_bead_of_resolved_own_atoms.
+Print Assumptions C18_bead_of_resolved_translation.
+Print Assumptions C18_fragment_weight_is_molecule_weight.
+Print Assumptions C18_added_hydrogens_inherit_weight.
